@@ -3,36 +3,46 @@
 // real `+` and `*`.  The laws hold on polynomials in normal form (`nf`: len <= MAX_COEFFS and every coefficient at or
 // beyond `len` is the coefficient zero) -- `zero`, `one`, and every result of `+` and `*` are in normal form.
 
-/// the coefficient type is a commutative semiring (its operator specifications satisfy the laws)
+/// the VALID elements of the coefficient type form a commutative semiring under its operator specifications
+/// (`valid` is the representation invariant of the type, e.g. "the residue is reduced" for FiniteField)
 #[verifier::opaque]
 pub open spec fn csr<C: Semiring>() -> bool {
-    &&& forall|a: C, b: C| #[trigger] a.add_spec(b) == b.add_spec(a)
-    &&& forall|a: C, b: C, c: C| #[trigger] a.add_spec(b).add_spec(c) == a.add_spec(b.add_spec(c))
-    &&& forall|a: C| #[trigger] a.add_spec(C::zero_s()) == a
-    &&& forall|a: C, b: C| #[trigger] a.mul_spec(b) == b.mul_spec(a)
-    &&& forall|a: C, b: C, c: C| #[trigger] a.mul_spec(b).mul_spec(c) == a.mul_spec(b.mul_spec(c))
-    &&& forall|a: C| #[trigger] a.mul_spec(C::one_s()) == a
-    &&& forall|a: C| #[trigger] a.mul_spec(C::zero_s()) == C::zero_s()
-    &&& forall|a: C, b: C, c: C| #[trigger] a.mul_spec(b.add_spec(c)) == a.mul_spec(b).add_spec(a.mul_spec(c))
+    &&& C::zero_s().valid() && C::one_s().valid()
+    &&& forall|a: C, b: C| a.valid() && b.valid() ==> (#[trigger] a.add_spec(b)).valid()
+    &&& forall|a: C, b: C| a.valid() && b.valid() ==> (#[trigger] a.mul_spec(b)).valid()
+    &&& forall|a: C, b: C| a.valid() && b.valid() ==> #[trigger] a.add_spec(b) == b.add_spec(a)
+    &&& forall|a: C, b: C, c: C| a.valid() && b.valid() && c.valid() ==> #[trigger] a.add_spec(b).add_spec(c) == a.add_spec(b.add_spec(c))
+    &&& forall|a: C| a.valid() ==> #[trigger] a.add_spec(C::zero_s()) == a
+    &&& forall|a: C, b: C| a.valid() && b.valid() ==> #[trigger] a.mul_spec(b) == b.mul_spec(a)
+    &&& forall|a: C, b: C, c: C| a.valid() && b.valid() && c.valid() ==> #[trigger] a.mul_spec(b).mul_spec(c) == a.mul_spec(b.mul_spec(c))
+    &&& forall|a: C| a.valid() ==> #[trigger] a.mul_spec(C::one_s()) == a
+    &&& forall|a: C| a.valid() ==> #[trigger] a.mul_spec(C::zero_s()) == C::zero_s()
+    &&& forall|a: C, b: C, c: C| a.valid() && b.valid() && c.valid() ==> #[trigger] a.mul_spec(b.add_spec(c)) == a.mul_spec(b).add_spec(a.mul_spec(c))
 }
-pub proof fn c_add_comm<C: Semiring>(a: C, b: C) requires csr::<C>() ensures a.add_spec(b) == b.add_spec(a) { reveal(csr); }
-pub proof fn c_add_assoc<C: Semiring>(a: C, b: C, c: C) requires csr::<C>() ensures a.add_spec(b).add_spec(c) == a.add_spec(b.add_spec(c)) { reveal(csr); }
-pub proof fn c_add_zero<C: Semiring>(a: C) requires csr::<C>() ensures a.add_spec(C::zero_s()) == a, C::zero_s().add_spec(a) == a { reveal(csr); }
-pub proof fn c_mul_comm<C: Semiring>(a: C, b: C) requires csr::<C>() ensures a.mul_spec(b) == b.mul_spec(a) { reveal(csr); }
-pub proof fn c_mul_assoc<C: Semiring>(a: C, b: C, c: C) requires csr::<C>() ensures a.mul_spec(b).mul_spec(c) == a.mul_spec(b.mul_spec(c)) { reveal(csr); }
-pub proof fn c_mul_one<C: Semiring>(a: C) requires csr::<C>() ensures a.mul_spec(C::one_s()) == a, C::one_s().mul_spec(a) == a { reveal(csr); }
-pub proof fn c_mul_zero<C: Semiring>(a: C) requires csr::<C>() ensures a.mul_spec(C::zero_s()) == C::zero_s(), C::zero_s().mul_spec(a) == C::zero_s() { reveal(csr); }
-pub proof fn c_distr<C: Semiring>(a: C, b: C, c: C) requires csr::<C>()
+pub proof fn c_consts<C: Semiring>() requires csr::<C>() ensures C::zero_s().valid(), C::one_s().valid() { reveal(csr); }
+pub proof fn c_closed<C: Semiring>(a: C, b: C) requires csr::<C>(), a.valid(), b.valid() ensures a.add_spec(b).valid(), a.mul_spec(b).valid() { reveal(csr); }
+pub proof fn c_add_comm<C: Semiring>(a: C, b: C) requires csr::<C>(), a.valid(), b.valid() ensures a.add_spec(b) == b.add_spec(a) { reveal(csr); }
+pub proof fn c_add_assoc<C: Semiring>(a: C, b: C, c: C) requires csr::<C>(), a.valid(), b.valid(), c.valid() ensures a.add_spec(b).add_spec(c) == a.add_spec(b.add_spec(c)) { reveal(csr); }
+pub proof fn c_add_zero<C: Semiring>(a: C) requires csr::<C>(), a.valid() ensures a.add_spec(C::zero_s()) == a, C::zero_s().add_spec(a) == a { reveal(csr); }
+pub proof fn c_mul_comm<C: Semiring>(a: C, b: C) requires csr::<C>(), a.valid(), b.valid() ensures a.mul_spec(b) == b.mul_spec(a) { reveal(csr); }
+pub proof fn c_mul_assoc<C: Semiring>(a: C, b: C, c: C) requires csr::<C>(), a.valid(), b.valid(), c.valid() ensures a.mul_spec(b).mul_spec(c) == a.mul_spec(b.mul_spec(c)) { reveal(csr); }
+pub proof fn c_mul_one<C: Semiring>(a: C) requires csr::<C>(), a.valid() ensures a.mul_spec(C::one_s()) == a, C::one_s().mul_spec(a) == a { reveal(csr); }
+pub proof fn c_mul_zero<C: Semiring>(a: C) requires csr::<C>(), a.valid() ensures a.mul_spec(C::zero_s()) == C::zero_s(), C::zero_s().mul_spec(a) == C::zero_s() { reveal(csr); }
+pub proof fn c_distr<C: Semiring>(a: C, b: C, c: C) requires csr::<C>(), a.valid(), b.valid(), c.valid()
     ensures a.mul_spec(b.add_spec(c)) == a.mul_spec(b).add_spec(a.mul_spec(c)), b.add_spec(c).mul_spec(a) == b.mul_spec(a).add_spec(c.mul_spec(a))
 { reveal(csr); }
 /// (a+b)+(c+d) == (a+c)+(b+d)
-pub proof fn c_add_swap<C: Semiring>(a: C, b: C, c: C, d: C) requires csr::<C>()
+pub proof fn c_add_swap<C: Semiring>(a: C, b: C, c: C, d: C) requires csr::<C>(), a.valid(), b.valid(), c.valid(), d.valid()
     ensures a.add_spec(b).add_spec(c.add_spec(d)) == a.add_spec(c).add_spec(b.add_spec(d))
 {
+    c_closed(c, d); c_closed(b, d); c_closed(b, c); c_closed(c, b);
     c_add_assoc(a, b, c.add_spec(d)); c_add_assoc(b, c, d); c_add_comm(b, c); c_add_assoc(c, b, d); c_add_assoc(a, c, b.add_spec(d));
 }
 
 pub type CF<C> = spec_fn(int) -> C;
+
+/// every value of f is a valid coefficient
+pub open spec fn tv<C: Semiring>(f: CF<C>) -> bool { forall|i: int| (#[trigger] f(i)).valid() }
 
 /// f(0) + f(1) + .. + f(n-1), accumulated from the left
 pub open spec fn sum<C: Semiring>(f: CF<C>, n: int) -> C
@@ -41,6 +51,14 @@ pub open spec fn sum<C: Semiring>(f: CF<C>, n: int) -> C
     if n <= 0 { C::zero_s() } else { sum(f, n - 1).add_spec(f(n - 1)) }
 }
 
+pub proof fn sum_valid<C: Semiring>(f: CF<C>, n: int)
+    requires csr::<C>(), tv(f),
+    ensures sum(f, n).valid(),
+    decreases n,
+{
+    c_consts::<C>();
+    if n > 0 { sum_valid(f, n - 1); c_closed(sum(f, n - 1), f(n - 1)); }
+}
 pub proof fn sum_cong<C: Semiring>(f: CF<C>, g: CF<C>, n: int)
     requires forall|i: int| 0 <= i < n ==> #[trigger] f(i) == g(i),
     ensures sum(f, n) == sum(g, n),
@@ -53,55 +71,60 @@ pub proof fn sum_zero<C: Semiring>(f: CF<C>, n: int)
     ensures sum(f, n) == C::zero_s(),
     decreases n,
 {
+    c_consts::<C>();
     if n > 0 { sum_zero(f, n - 1); c_add_zero(C::zero_s()); }
 }
 /// trailing zero terms do not matter
 pub proof fn sum_ext<C: Semiring>(f: CF<C>, n: int, m: int)
-    requires csr::<C>(), 0 <= n <= m, forall|i: int| n <= i < m ==> #[trigger] f(i) == C::zero_s(),
+    requires csr::<C>(), tv(f), 0 <= n <= m, forall|i: int| n <= i < m ==> #[trigger] f(i) == C::zero_s(),
     ensures sum(f, m) == sum(f, n),
     decreases m - n,
 {
-    if m > n { sum_ext(f, n, m - 1); c_add_zero(sum(f, m - 1)); }
+    if m > n { sum_ext(f, n, m - 1); sum_valid(f, m - 1); c_add_zero(sum(f, m - 1)); }
 }
 pub proof fn sum_add<C: Semiring>(f: CF<C>, g: CF<C>, n: int)
-    requires csr::<C>(),
+    requires csr::<C>(), tv(f), tv(g),
     ensures sum(|i: int| f(i).add_spec(g(i)), n) == sum(f, n).add_spec(sum(g, n)),
     decreases n,
 {
     let h = |i: int| f(i).add_spec(g(i));
+    c_consts::<C>();
     if n > 0 {
         sum_add(f, g, n - 1);
+        sum_valid(f, n - 1); sum_valid(g, n - 1);
         c_add_swap(sum(f, n - 1), sum(g, n - 1), f(n - 1), g(n - 1));
         assert(h(n - 1) == f(n - 1).add_spec(g(n - 1)));
     } else { c_add_zero(C::zero_s()); }
 }
 pub proof fn sum_mul_left<C: Semiring>(c: C, f: CF<C>, n: int)
-    requires csr::<C>(),
+    requires csr::<C>(), tv(f), c.valid(),
     ensures sum(|i: int| c.mul_spec(f(i)), n) == c.mul_spec(sum(f, n)),
     decreases n,
 {
     let h = |i: int| c.mul_spec(f(i));
     if n > 0 {
         sum_mul_left(c, f, n - 1);
+        sum_valid(f, n - 1);
         c_distr(c, sum(f, n - 1), f(n - 1));
         assert(h(n - 1) == c.mul_spec(f(n - 1)));
     } else { c_mul_zero(c); }
 }
 pub proof fn sum_mul_right<C: Semiring>(f: CF<C>, c: C, n: int)
-    requires csr::<C>(),
+    requires csr::<C>(), tv(f), c.valid(),
     ensures sum(|i: int| f(i).mul_spec(c), n) == sum(f, n).mul_spec(c),
     decreases n,
 {
     let h = |i: int| f(i).mul_spec(c);
     if n > 0 {
         sum_mul_right(f, c, n - 1);
+        sum_valid(f, n - 1);
         c_distr(c, sum(f, n - 1), f(n - 1));
         assert(h(n - 1) == f(n - 1).mul_spec(c));
     } else { c_mul_zero(c); }
 }
 /// exchange of two finite sums
 pub proof fn sum_fubini<C: Semiring>(g: spec_fn(int, int) -> C, n: int, m: int)
-    requires csr::<C>(),
+    requires csr::<C>(), forall|i: int, j: int| (#[trigger] g(i, j)).valid(),
     ensures sum(|i: int| sum(|j: int| g(i, j), m), n) == sum(|j: int| sum(|i: int| g(i, j), n), m),
     decreases n,
 {
@@ -120,36 +143,24 @@ pub proof fn sum_fubini<C: Semiring>(g: spec_fn(int, int) -> C, n: int, m: int)
             assert(sum(col, n) == sum(col, n - 1).add_spec(col(n - 1)));
         }
         sum_cong(cols, |j: int| cols1(j).add_spec(last(j)), m);
+        assert(tv(last));
+        assert(tv(cols1)) by {
+            assert forall|j: int| (#[trigger] cols1(j)).valid() by { let col = |i: int| g(i, j); assert(tv(col)); sum_valid(col, n - 1); }
+        }
         sum_add(cols1, last, m);
         assert(rows(n - 1) == sum(last, m)) by { sum_cong(|j: int| g(n - 1, j), last, m); }
         let rows1 = |i: int| sum(|j: int| g(i, j), m);
         assert(sum(rows, n - 1) == sum(rows1, n - 1)) by { sum_cong(rows, rows1, n - 1); }
     }
 }
-/// reading the terms backwards
-pub proof fn sum_reverse<C: Semiring>(f: CF<C>, n: int)
-    requires csr::<C>(), n >= 0,
-    ensures sum(|i: int| f(n - 1 - i), n) == sum(f, n),
-    decreases n,
-{
-    let r = |i: int| f(n - 1 - i);
-    if n > 0 {
-        // sum(r, n) = r(0) + sum(i -> r(i+1), n-1) ; r(i+1) = f(n-2-i) = reverse of f on n-1
-        sum_front(r, n);
-        let r1 = |i: int| r(i + 1);
-        let rr = |i: int| f(n - 1 - 1 - i);
-        sum_cong(r1, rr, n - 1);
-        sum_reverse(f, n - 1);
-        c_add_comm(r(0), sum(f, n - 1));
-    }
-}
 /// peeling the first term: sum(f, n) = f(0) + sum(i -> f(i+1), n-1)
 pub proof fn sum_front<C: Semiring>(f: CF<C>, n: int)
-    requires csr::<C>(), n >= 1,
+    requires csr::<C>(), tv(f), n >= 1,
     ensures sum(f, n) == f(0).add_spec(sum(|i: int| f(i + 1), n - 1)),
     decreases n,
 {
     let s = |i: int| f(i + 1);
+    assert(tv(s)) by { assert forall|i: int| (#[trigger] s(i)).valid() by { assert(f(i + 1).valid()); } }
     if n == 1 {
         c_add_zero(f(0));
         assert(sum(f, 0) == C::zero_s());
@@ -157,35 +168,57 @@ pub proof fn sum_front<C: Semiring>(f: CF<C>, n: int)
     } else {
         sum_front(f, n - 1);
         assert(s(n - 2) == f(n - 1));
+        sum_valid(s, n - 2);
         c_add_assoc(f(0), sum(s, n - 2), f(n - 1));
+    }
+}
+/// reading the terms backwards
+pub proof fn sum_reverse<C: Semiring>(f: CF<C>, n: int)
+    requires csr::<C>(), tv(f), n >= 0,
+    ensures sum(|i: int| f(n - 1 - i), n) == sum(f, n),
+    decreases n,
+{
+    let r = |i: int| f(n - 1 - i);
+    assert(tv(r)) by { assert forall|i: int| (#[trigger] r(i)).valid() by { assert(f(n - 1 - i).valid()); } }
+    if n > 0 {
+        sum_front(r, n);
+        let r1 = |i: int| r(i + 1);
+        let rr = |i: int| f(n - 1 - 1 - i);
+        sum_cong(r1, rr, n - 1);
+        sum_reverse(f, n - 1);
+        sum_valid(f, n - 1);
+        c_add_comm(r(0), sum(f, n - 1));
     }
 }
 /// a shifted summand that vanishes on negative arguments: sum_{i<n} g(i-j) = sum_{i<n-j} g(i)  (0 <= j <= n)
 pub proof fn sum_shift<C: Semiring>(g: CF<C>, j: int, n: int)
-    requires csr::<C>(), 0 <= j <= n, forall|i: int| i < 0 ==> #[trigger] g(i) == C::zero_s(),
+    requires csr::<C>(), tv(g), 0 <= j <= n, forall|i: int| i < 0 ==> #[trigger] g(i) == C::zero_s(),
     ensures sum(|i: int| g(i - j), n) == sum(g, n - j),
     decreases j,
 {
     let sh = |i: int| g(i - j);
+    assert(tv(sh)) by { assert forall|i: int| (#[trigger] sh(i)).valid() by { assert(g(i - j).valid()); } }
     if j == 0 {
         sum_cong(sh, g, n);
     } else {
-        // peel the first term (g(-j) = 0) and shift by j-1 on n-1
         sum_front(sh, n);
         let sh1 = |i: int| sh(i + 1);
         let sh2 = |i: int| g(i - (j - 1));
         sum_cong(sh1, sh2, n - 1);
         sum_shift(g, j - 1, n - 1);
         assert(sh(0) == C::zero_s());
+        sum_valid(g, n - j);
         c_add_zero(sum(g, n - j));
     }
 }
 
 // ---- polynomials as coefficient functions ----
 impl<C: Semiring + Copy> Polynomial<C> {
-    /// normal form: every coefficient at or beyond `len` is zero
+    /// normal form: valid coefficients, and every coefficient at or beyond `len` is zero
     pub open spec fn nf(self) -> bool {
-        self.len <= MAX_COEFFS && forall|i: int| self.len <= i < MAX_COEFFS ==> #[trigger] self.coefficients@[i] == C::zero_s()
+        &&& self.len <= MAX_COEFFS
+        &&& forall|i: int| 0 <= i < MAX_COEFFS ==> (#[trigger] self.coefficients@[i]).valid()
+        &&& forall|i: int| self.len <= i < MAX_COEFFS ==> #[trigger] self.coefficients@[i] == C::zero_s()
     }
     /// coefficient function, zero outside 0..MAX_COEFFS
     pub open spec fn cf(self) -> CF<C> {
@@ -198,18 +231,37 @@ impl<C: Semiring + Copy> Polynomial<C> {
         self.len == 1 && self.coefficients@[0] == C::one_s() && forall|i: int| 1 <= i < MAX_COEFFS ==> #[trigger] self.coefficients@[i] == C::zero_s()
     }
 }
+pub proof fn lemma_cf_valid<C: Semiring + Copy>(a: Polynomial<C>)
+    requires csr::<C>(), a.nf(),
+    ensures tv(a.cf()),
+{
+    c_consts::<C>();
+    assert forall|i: int| (#[trigger] a.cf()(i)).valid() by {}
+}
+/// the summand of a product coefficient
+pub open spec fn pterm<C: Semiring + Copy>(a: Polynomial<C>, b: Polynomial<C>, k: int) -> CF<C> {
+    |i: int| a.cf()(i).mul_spec(b.cf()(k - i))
+}
+pub proof fn lemma_pterm_valid<C: Semiring + Copy>(a: Polynomial<C>, b: Polynomial<C>, k: int)
+    requires csr::<C>(), a.nf(), b.nf(),
+    ensures tv(pterm(a, b, k)),
+{
+    lemma_cf_valid(a); lemma_cf_valid(b);
+    assert forall|i: int| (#[trigger] pterm(a, b, k)(i)).valid() by { c_closed(a.cf()(i), b.cf()(k - i)); }
+}
 
 /// the k-th product coefficient as a full-range sum over zero-extended coefficient functions
 pub open spec fn prod_cf<C: Semiring + Copy>(a: Polynomial<C>, b: Polynomial<C>, k: int) -> C {
-    sum(|i: int| a.cf()(i).mul_spec(b.cf()(k - i)), MAX_COEFFS as int)
+    sum(pterm(a, b, k), MAX_COEFFS as int)
 }
 
 pub proof fn lemma_conv_sum<C: Semiring + Copy>(a: Polynomial<C>, b: Polynomial<C>, k: int, n: int)
     requires csr::<C>(), a.nf(), b.nf(), 0 <= k < MAX_COEFFS, 0 <= n <= a.len,
-    ensures conv(a.coefficients@, a.len as int, b.coefficients@, b.len as int, k, n) == sum(|i: int| a.cf()(i).mul_spec(b.cf()(k - i)), n),
+    ensures conv(a.coefficients@, a.len as int, b.coefficients@, b.len as int, k, n) == sum(pterm(a, b, k), n),
     decreases n,
 {
-    let t = |i: int| a.cf()(i).mul_spec(b.cf()(k - i));
+    let t = pterm(a, b, k);
+    lemma_pterm_valid(a, b, k); lemma_cf_valid(a); lemma_cf_valid(b);
     if n > 0 {
         lemma_conv_sum(a, b, k, n - 1);
         let i = n - 1;
@@ -219,6 +271,7 @@ pub proof fn lemma_conv_sum<C: Semiring + Copy>(a: Polynomial<C>, b: Polynomial<
             // the skipped term is zero: b's coefficient function vanishes at k - i
             assert(b.cf()(k - i) == C::zero_s());
             c_mul_zero(a.cf()(i));
+            sum_valid(t, n - 1);
             c_add_zero(sum(t, n - 1));
         }
     }
@@ -231,8 +284,10 @@ pub proof fn lemma_mul_cf<C: Semiring + Copy>(a: Polynomial<C>, b: Polynomial<C>
         r.nf(),
         forall|k: int| 0 <= k < MAX_COEFFS ==> #[trigger] r.coefficients@[k] == prod_cf(a, b, k),
 {
+    lemma_cf_valid(a); lemma_cf_valid(b); c_consts::<C>();
     assert forall|k: int| 0 <= k < MAX_COEFFS implies #[trigger] r.coefficients@[k] == prod_cf(a, b, k) by {
-        let t = |i: int| a.cf()(i).mul_spec(b.cf()(k - i));
+        let t = pterm(a, b, k);
+        lemma_pterm_valid(a, b, k);
         if a.len == 0 || b.len == 0 {
             assert forall|i: int| 0 <= i < MAX_COEFFS implies #[trigger] t(i) == C::zero_s() by {
                 if a.len == 0 { c_mul_zero(b.cf()(k - i)); } else { c_mul_zero(a.cf()(i)); }
@@ -244,9 +299,12 @@ pub proof fn lemma_mul_cf<C: Semiring + Copy>(a: Polynomial<C>, b: Polynomial<C>
             sum_ext(t, a.len as int, MAX_COEFFS as int);
         }
     }
+    assert forall|k: int| 0 <= k < MAX_COEFFS implies (#[trigger] r.coefficients@[k]).valid() by {
+        lemma_pterm_valid(a, b, k); sum_valid(pterm(a, b, k), MAX_COEFFS as int);
+    }
     // normal form of the result: beyond len every product term has one zero factor
     assert forall|k: int| r.len <= k < MAX_COEFFS implies #[trigger] r.coefficients@[k] == C::zero_s() by {
-        let t = |i: int| a.cf()(i).mul_spec(b.cf()(k - i));
+        let t = pterm(a, b, k);
         if !(a.len == 0 || b.len == 0) {
             assert forall|i: int| 0 <= i < MAX_COEFFS implies #[trigger] t(i) == C::zero_s() by {
                 if i >= a.len { c_mul_zero(b.cf()(k - i)); } else { assert(k - i >= b.len); c_mul_zero(a.cf()(i)); }
@@ -260,9 +318,11 @@ pub proof fn lemma_add_nf<C: Semiring + Copy>(a: Polynomial<C>, b: Polynomial<C>
     requires csr::<C>(), a.nf(), b.nf(), a.add_def(b, r),
     ensures r.nf(), forall|k: int| 0 <= k < MAX_COEFFS ==> #[trigger] r.coefficients@[k] == a.coefficients@[k].add_spec(b.coefficients@[k]),
 {
+    c_consts::<C>();
     assert forall|k: int| 0 <= k < MAX_COEFFS implies #[trigger] r.coefficients@[k] == a.coefficients@[k].add_spec(b.coefficients@[k]) by {
         if k >= r.len { c_add_zero(C::zero_s()); }
     }
+    assert forall|k: int| 0 <= k < MAX_COEFFS implies (#[trigger] r.coefficients@[k]).valid() by { c_closed(a.coefficients@[k], b.coefficients@[k]); }
 }
 
 // ---- the laws ----
@@ -284,6 +344,7 @@ pub proof fn poly_add_zero<C: Semiring + Copy>(a: Polynomial<C>, z: Polynomial<C
     requires csr::<C>(), a.nf(), z.is_zero_poly(), a.add_def(z, r),
     ensures r.peq(a),
 {
+    c_consts::<C>();
     lemma_add_nf(a, z, r);
     assert forall|k: int| 0 <= k < MAX_COEFFS implies r.coefficients@[k] == a.coefficients@[k] by { c_add_zero(a.coefficients@[k]); }
 }
@@ -296,11 +357,15 @@ pub proof fn poly_mul_one<C: Semiring + Copy>(a: Polynomial<C>, o: Polynomial<C>
     requires csr::<C>(), a.nf(), o.is_one_poly(), a.mul_def(o, r),
     ensures r.peq(a),
 {
+    c_consts::<C>();
     if a.len > 0 {
+        assert(o.nf());
         lemma_mul_cf(a, o, r);
+        lemma_cf_valid(a);
         assert forall|k: int| 0 <= k < MAX_COEFFS implies r.coefficients@[k] == a.coefficients@[k] by {
             // only the term i == k survives
-            let t = |i: int| a.cf()(i).mul_spec(o.cf()(k - i));
+            let t = pterm(a, o, k);
+            lemma_pterm_valid(a, o, k);
             assert forall|i: int| 0 <= i < k implies #[trigger] t(i) == C::zero_s() by { c_mul_zero(a.cf()(i)); }
             sum_zero(t, k);
             assert(sum(t, k + 1) == sum(t, k).add_spec(t(k)));
@@ -316,10 +381,11 @@ pub proof fn poly_mul_comm<C: Semiring + Copy>(a: Polynomial<C>, b: Polynomial<C
     requires csr::<C>(), a.nf(), b.nf(), a.mul_def(b, r1), b.mul_def(a, r2),
     ensures r1.peq(r2),
 {
-    lemma_mul_cf(a, b, r1); lemma_mul_cf(b, a, r2);
+    lemma_mul_cf(a, b, r1); lemma_mul_cf(b, a, r2); lemma_cf_valid(a); lemma_cf_valid(b);
     assert forall|k: int| 0 <= k < MAX_COEFFS implies r1.coefficients@[k] == r2.coefficients@[k] by {
-        let f = |i: int| a.cf()(i).mul_spec(b.cf()(k - i));
-        let g = |i: int| b.cf()(i).mul_spec(a.cf()(k - i));
+        let f = pterm(a, b, k);
+        let g = pterm(b, a, k);
+        lemma_pterm_valid(a, b, k); lemma_pterm_valid(b, a, k);
         // both vanish beyond k; on 0..=k one is the other read backwards
         assert forall|i: int| k + 1 <= i < MAX_COEFFS implies #[trigger] f(i) == C::zero_s() by { c_mul_zero(a.cf()(i)); }
         assert forall|i: int| k + 1 <= i < MAX_COEFFS implies #[trigger] g(i) == C::zero_s() by { c_mul_zero(b.cf()(i)); }
@@ -335,15 +401,18 @@ pub proof fn poly_distr<C: Semiring + Copy>(a: Polynomial<C>, b: Polynomial<C>, 
     ensures r1.peq(r2),
 {
     lemma_add_nf(b, c, bc); lemma_mul_cf(a, bc, r1); lemma_mul_cf(a, b, ab); lemma_mul_cf(a, c, ac); lemma_add_nf(ab, ac, r2);
+    lemma_cf_valid(a); lemma_cf_valid(b); lemma_cf_valid(c); c_consts::<C>();
     assert forall|k: int| 0 <= k < MAX_COEFFS implies r1.coefficients@[k] == r2.coefficients@[k] by {
-        let f = |i: int| a.cf()(i).mul_spec(b.cf()(k - i));
-        let g = |i: int| a.cf()(i).mul_spec(c.cf()(k - i));
-        let h = |i: int| a.cf()(i).mul_spec(bc.cf()(k - i));
-        assert forall|i: int| 0 <= i < MAX_COEFFS implies #[trigger] h(i) == (|i: int| f(i).add_spec(g(i)))(i) by {
+        let f = pterm(a, b, k);
+        let g = pterm(a, c, k);
+        let h = pterm(a, bc, k);
+        lemma_pterm_valid(a, b, k); lemma_pterm_valid(a, c, k);
+        let fg = |i: int| f(i).add_spec(g(i));
+        assert forall|i: int| 0 <= i < MAX_COEFFS implies #[trigger] h(i) == fg(i) by {
             if 0 <= k - i < MAX_COEFFS { c_distr(a.cf()(i), b.cf()(k - i), c.cf()(k - i)); }
             else { c_mul_zero(a.cf()(i)); c_add_zero(C::zero_s()); }
         }
-        sum_cong(h, |i: int| f(i).add_spec(g(i)), MAX_COEFFS as int);
+        sum_cong(h, fg, MAX_COEFFS as int);
         sum_add(f, g, MAX_COEFFS as int);
     }
 }
@@ -354,8 +423,10 @@ pub proof fn lemma_inner_shift<C: Semiring + Copy>(b: Polynomial<C>, c: Polynomi
     ensures sum(|i: int| b.cf()(i - j).mul_spec(c.cf()(k - i)), MAX_COEFFS as int) == bc.cf()(k - j),
 {
     let n = MAX_COEFFS as int;
+    lemma_cf_valid(b); lemma_cf_valid(c); c_consts::<C>();
     let inner = |i: int| b.cf()(i - j).mul_spec(c.cf()(k - i));
-    let h = |m: int| b.cf()(m).mul_spec(c.cf()(k - j - m));
+    let h = pterm(b, c, k - j);
+    lemma_pterm_valid(b, c, k - j);
     assert forall|m: int| m < 0 implies #[trigger] h(m) == C::zero_s() by { c_mul_zero(c.cf()(k - j - m)); }
     sum_shift(h, j, n);
     let hs = |i: int| h(i - j);
@@ -367,7 +438,6 @@ pub proof fn lemma_inner_shift<C: Semiring + Copy>(b: Polynomial<C>, c: Polynomi
         assert forall|m: int| n - j <= m < n implies #[trigger] h(m) == C::zero_s() by { c_mul_zero(b.cf()(m)); }
         sum_ext(h, n - j, n);
         assert(bc.cf()(k - j) == prod_cf(b, c, k - j));
-        sum_cong(h, |i: int| b.cf()(i).mul_spec(c.cf()(k - j - i)), n);
     } else {
         assert forall|m: int| 0 <= m < n - j implies #[trigger] h(m) == C::zero_s() by { c_mul_zero(b.cf()(m)); }
         sum_zero(h, n - j);
@@ -380,13 +450,16 @@ pub proof fn poly_mul_assoc<C: Semiring + Copy>(a: Polynomial<C>, b: Polynomial<
 {
     let n = MAX_COEFFS as int;
     lemma_mul_cf(a, b, ab); lemma_mul_cf(ab, c, r1); lemma_mul_cf(b, c, bc); lemma_mul_cf(a, bc, r2);
+    lemma_cf_valid(a); lemma_cf_valid(b); lemma_cf_valid(c); lemma_cf_valid(ab); lemma_cf_valid(bc); c_consts::<C>();
     assert forall|k: int| 0 <= k < MAX_COEFFS implies r1.coefficients@[k] == r2.coefficients@[k] by {
         let g = |i: int, j: int| a.cf()(j).mul_spec(b.cf()(i - j)).mul_spec(c.cf()(k - i));
-        let lhs = |i: int| ab.cf()(i).mul_spec(c.cf()(k - i));
+        assert forall|i: int, j: int| (#[trigger] g(i, j)).valid() by { c_closed(a.cf()(j), b.cf()(i - j)); c_closed(a.cf()(j).mul_spec(b.cf()(i - j)), c.cf()(k - i)); }
+        let lhs = pterm(ab, c, k);
         let rows = |i: int| sum(|j: int| g(i, j), n);
         // step 1: each term of the outer sum is a row sum of g
         assert forall|i: int| 0 <= i < n implies #[trigger] lhs(i) == rows(i) by {
-            let f = |j: int| a.cf()(j).mul_spec(b.cf()(i - j));
+            let f = pterm(a, b, i);
+            lemma_pterm_valid(a, b, i);
             sum_mul_right(f, c.cf()(k - i), n);
             assert(ab.cf()(i) == prod_cf(a, b, i));
             sum_cong(|j: int| f(j).mul_spec(c.cf()(k - i)), |j: int| g(i, j), n);
@@ -395,10 +468,11 @@ pub proof fn poly_mul_assoc<C: Semiring + Copy>(a: Polynomial<C>, b: Polynomial<
         // step 2: exchange the sums
         sum_fubini(g, n, n);
         let cols = |j: int| sum(|i: int| g(i, j), n);
-        let rhs = |j: int| a.cf()(j).mul_spec(bc.cf()(k - j));
+        let rhs = pterm(a, bc, k);
         // steps 3, 4: each column sum is a(j) times the (k-j)-th coefficient of b*c
         assert forall|j: int| 0 <= j < n implies #[trigger] cols(j) == rhs(j) by {
             let inner = |i: int| b.cf()(i - j).mul_spec(c.cf()(k - i));
+            assert(tv(inner)) by { assert forall|i: int| (#[trigger] inner(i)).valid() by { c_closed(b.cf()(i - j), c.cf()(k - i)); } }
             let colf = |i: int| g(i, j);
             let scaled = |i: int| a.cf()(j).mul_spec(inner(i));
             assert forall|i: int| 0 <= i < n implies #[trigger] colf(i) == scaled(i) by {
@@ -411,8 +485,6 @@ pub proof fn poly_mul_assoc<C: Semiring + Copy>(a: Polynomial<C>, b: Polynomial<
         sum_cong(cols, rhs, n);
         assert(r1.coefficients@[k] == prod_cf(ab, c, k));
         assert(r2.coefficients@[k] == prod_cf(a, bc, k));
-        assert(prod_cf(ab, c, k) == sum(lhs, n));
-        assert(prod_cf(a, bc, k) == sum(rhs, n));
     }
 }
 
@@ -422,4 +494,11 @@ pub proof fn poly_closed<C: Semiring + Copy>(a: Polynomial<C>, b: Polynomial<C>,
     ensures s.nf(), p.nf(),
 {
     lemma_add_nf(a, b, s); lemma_mul_cf(a, b, p);
+}
+/// `zero` and `one` are in normal form
+pub proof fn poly_consts_nf<C: Semiring + Copy>(z: Polynomial<C>, o: Polynomial<C>)
+    requires csr::<C>(), z.is_zero_poly(), o.is_one_poly(),
+    ensures z.nf(), o.nf(),
+{
+    c_consts::<C>();
 }
